@@ -278,10 +278,95 @@ fn op_binop(req: &J) -> J {
     }
 }
 
+// Writer / reader with a fault plan and a shared event log (replay of I/O counterexamples).
+// Output: line k (0-based, counted by the line feeds accepted so far) and every later one fails -- mode "error": write returns Err;
+// mode "zero": write returns Ok(0).  A write never accepts more than one line (short writes are within the Write contract).
+// Input: serves one line per read call; read call k and every later one fails.
+struct FaultWriter {
+    data: Vec<u8>,
+    lines: u64,
+    fail_at: Option<u64>,
+    zero: bool,
+    log: std::rc::Rc<std::cell::RefCell<Vec<&'static str>>>,
+    at_line_start: bool,
+}
+
+impl std::io::Write for FaultWriter {
+    fn write(&mut self, buf: &[u8]) -> std::io::Result<usize> {
+        if buf.is_empty() {
+            return Ok(0);
+        }
+        if self.at_line_start {
+            self.log.borrow_mut().push("out");
+        }
+        if let Some(k) = self.fail_at {
+            if self.lines >= k {
+                return if self.zero { Ok(0) } else { Err(std::io::Error::new(std::io::ErrorKind::Other, "fault")) };
+            }
+        }
+        let n = match buf.iter().position(|b| *b == b'\n') {
+            Some(i) => {
+                self.lines += 1;
+                self.at_line_start = true;
+                i + 1
+            }
+            None => {
+                self.at_line_start = false;
+                buf.len()
+            }
+        };
+        self.data.extend_from_slice(&buf[..n]);
+        Ok(n)
+    }
+    fn flush(&mut self) -> std::io::Result<()> {
+        Ok(())
+    }
+}
+
+struct FaultReader {
+    data: Vec<u8>,
+    pos: usize,
+    calls: u64,
+    fail_at: Option<u64>,
+    log: std::rc::Rc<std::cell::RefCell<Vec<&'static str>>>,
+}
+
+impl std::io::Read for FaultReader {
+    fn read(&mut self, buf: &mut [u8]) -> std::io::Result<usize> {
+        self.log.borrow_mut().push("in");
+        let k = self.calls;
+        self.calls += 1;
+        if let Some(f) = self.fail_at {
+            if k >= f {
+                return Err(std::io::Error::new(std::io::ErrorKind::Other, "fault"));
+            }
+        }
+        let rest = &self.data[self.pos..];
+        let n = match rest.iter().position(|b| *b == b'\n') {
+            Some(i) => i + 1,
+            None => rest.len(),
+        }
+        .min(buf.len());
+        buf[..n].copy_from_slice(&rest[..n]);
+        self.pos += n;
+        Ok(n)
+    }
+}
+
+fn opt_u64(j: &J) -> Option<u64> {
+    match j {
+        J::U64(n) => Some(*n),
+        J::Num(n) => Some(*n as u64),
+        _ => None,
+    }
+}
+
 fn op_program(req: &J) -> J {
     let src = req.get("src").str().to_string();
     let stdin = req.get("stdin").str().to_string();
-    let mut out: Vec<u8> = Vec::new();
+    let log = std::rc::Rc::new(std::cell::RefCell::new(Vec::new()));
+    let mut out = FaultWriter { data: Vec::new(), lines: 0, fail_at: opt_u64(req.get("out_fail_at")), zero: req.get("out_fail_mode").str() == "zero", log: log.clone(), at_line_start: true };
+    let input = FaultReader { data: stdin.into_bytes(), pos: 0, calls: 0, fail_at: opt_u64(req.get("in_fail_at")), log: log.clone() };
     let mut res = Vec::new();
     match rrss::frontend::parser::parse(&src) {
         Err(e) => {
@@ -291,7 +376,7 @@ fn op_program(req: &J) -> J {
         }
         Ok(program) => {
             res.push(("parse", J::s("ok")));
-            let r = rrss::exec::exec_using(stdin.as_bytes(), &mut out, &program);
+            let r = rrss::exec::exec_using(input, &mut out, &program);
             match r {
                 Ok(()) => res.push(("result", J::s("ok"))),
                 Err(e) => {
@@ -303,7 +388,8 @@ fn op_program(req: &J) -> J {
             }
         }
     }
-    res.push(("stdout", J::s(String::from_utf8_lossy(&out).into_owned())));
+    res.push(("stdout", J::s(String::from_utf8_lossy(&out.data).into_owned())));
+    res.push(("events", J::s(log.borrow().iter().map(|e| &e[..1]).collect::<String>())));
     J::obj(res)
 }
 
